@@ -22,6 +22,10 @@ var profiles = map[string]Profile{
 	"wild":  {Name: "wild", Clients: 3, Resources: 4, Stimuli: 24, Refs: true, Collections: true, Unsub: true, Gets: true, Faults: true, Disconnect: true, Evict: true, Deletes: true, Endgame: true},
 	"long":  {Name: "long", Clients: 2, Resources: 3, Stimuli: 14, Unsub: true, Gets: false, Clean: true, LongRids: true, Endgame: true},
 	"access": {Name: "access", Clients: 2, Resources: 3, Stimuli: 22, Unsub: true, Reaccess: true, Tokens: true, Calls: true, Faults: true, Denials: true, Clean: true},
+	"accrefs": {Name: "accrefs", Clients: 2, Resources: 4, Stimuli: 24, Refs: true, Collections: true, Unsub: true, Reaccess: true, Tokens: true, Calls: true, Denials: true, Clean: true},
+	"tinyacc": {Name: "tinyacc", Clients: 1, Resources: 2, Stimuli: 16, Refs: true, Unsub: true, Reaccess: true, Tokens: true, Calls: true, Denials: true, Clean: true},
+	"tinyrefs": {Name: "tinyrefs", Clients: 1, Resources: 3, Stimuli: 16, Refs: true, Collections: true, Unsub: true, Clean: true},
+	"scacc": {Name: "scacc", Clients: 2, Resources: 3, Refs: true, Unsub: true, Reaccess: true, Tokens: true, Calls: true, Denials: true, Scenario: "acc"},
 	"reset": {Name: "reset", Clients: 2, Resources: 4, Stimuli: 22, Refs: true, Collections: true, Unsub: true, Resets: true, Clean: true},
 	"malformed": {Name: "malformed", Clients: 2, Resources: 4, Stimuli: 26, Refs: true, Collections: true, Unsub: true, Calls: true, Malformed: true, Clean: true, Endgame: true},
 	"stop":  {Name: "stop", Clients: 3, Resources: 4, Stimuli: 20, Refs: true, Collections: true, Unsub: true, Calls: true, Disconnect: true, Evict: true, StopAt: true},
